@@ -66,22 +66,40 @@ def world(I, has_seg=False, lineage=True, inv=("forest", "trackids", "b1", "b2")
         W.assumed += T.B1(v, K, ta.fields["lineage_id_to_nodes"], "lin")
     if "b2" in inv:
         W.assumed += T.B2(v, K, W.maxT(), W.maxL())
+    # typing of lineage ids: an int or absent
+    W.assumed.append(("typing.lineage", forall([a_], OR(is_VInt(T.lid(v, K, a_)), is_VNone(T.lid(v, K, a_))))))
     for _, f in W.assumed:
         ctx.assume(f)
     W.v0 = v
     W.below = {}
     ctx.ghost["key_terms"] = [K.tk, K.trk, K.lk, K.pk]
+    # value layer: an ndarray is neither an int nor None; list(ndarray) is a list
+    x = z3.Const("x!v", Val)
+    ctx.assume(forall([x], IMP(OR(is_VInt(x), is_VNone(x)), z3.Not(is_nd(x)))))
+    ctx.assume(forall([x], AND(z3.Not(is_nd(tolist(x))), z3.Not(is_VInt(tolist(x))), z3.Not(is_VNone(tolist(x))))))
+    if "segfacts" in inv:
+        B = below_of(I, W)
+        W.bel0 = B
+        W.lemma_uses = ["M2' segment_facts (Lean: theory/lean/Segments.lean)"]
+        for _, f in T.segment_facts(v, K, B.rel):
+            ctx.assume(f)
     return W
 
 
 def below_of(I, W, facts=None):
     """The descendant closure of the *current* graph version (created on first use)."""
     v = W.st.v
-    key = (v.E.name(), v.A.name())
+    key = v.E.name()
     if key not in W.below:
         B = T.Below(I.ctx, v, W.K)
         for _, f in B.facts():
             I.ctx.assume(f)
+        # M3 (monotonicity): fewer edges, fewer descendants
+        for B0 in W.below.values():
+            if I.ctx.entails(forall([a_, b_], IMP(v.E(a_, b_), B0.v.E(a_, b_)))):
+                I.ctx.assume(forall([a_, b_], IMP(B.rel(a_, b_), B0.rel(a_, b_))))
+            elif I.ctx.entails(forall([a_, b_], IMP(B0.v.E(a_, b_), v.E(a_, b_)))):
+                I.ctx.assume(forall([a_, b_], IMP(B0.rel(a_, b_), B.rel(a_, b_))))
         W.below[key] = B
     return W.below[key]
 
